@@ -221,6 +221,9 @@ func historyCase(t *testing.T, run *vt.Run, c vt.CaseID, rng *rand.Rand) {
 				isExplicit = true
 				pid := int32(rng.IntN(3))
 				to := ring.PartitionState(1 + rng.IntN(3))
+				if rng.IntN(5) == 0 {
+					to = []ring.PartitionState{ring.PartitionUnknown, ring.PartitionDeleted}[rng.IntN(2)] // never a legal target
+				}
 				cur := current()
 				p, exists := cur.Partitions[pid]
 				err := editor.ChangePartitionState(ctx, pid, to)
@@ -236,6 +239,9 @@ func historyCase(t *testing.T, run *vt.Run, c vt.CaseID, rng *rand.Rand) {
 				if started[i] && !stopped[i] && lcs[i].State() == services.Running {
 					isExplicit = true
 					to := ring.PartitionState(1 + rng.IntN(3))
+					if rng.IntN(5) == 0 {
+						to = []ring.PartitionState{ring.PartitionUnknown, ring.PartitionDeleted}[rng.IntN(2)] // never a legal target
+					}
 					cctx, cancel := context.WithTimeout(ctx, time.Second)
 					err := lcs[i].ChangePartitionState(cctx, to)
 					cancel()
